@@ -364,6 +364,16 @@ def case_preproc(case):
                 g0, c0 = _est(pos, z2, edges, estimator=est)
                 g, c = _est(pos, f2.copy(), edges, estimator=est, mean=mean_o[mk], trend=trend_o[tk], normalizer=norm_o[nk])
                 r.true("preprocessing of stacked fields == per-field preprocessing", np.array_equal(c, c0) and np.allclose(g, g0, rtol=1e-10, atol=1e-12), info={"g": g.tolist(), "g0": g0.tolist()}, mean=mk, trend=tk, norm=nk, estimator=est, dim=dim)
+    # the same callable mean / trend objects used for another point set of the same size (moved and re-ordered
+    # points): preprocessing is evaluated at the points of *this* call
+    pos2 = (pos[:, ::-1] + np.array([3.0, -1.5, 0.7])[:dim, None]).copy()
+    f_2 = f[::-1].copy()
+    for mk, tk in (("call", "none"), ("none", "call"), ("call", "call")):
+        ev2 = lambda v: 0.0 if v is None else np.asarray(v(*pos2), dtype=float)
+        _est(pos, f.copy(), edges, mean=mean_o[mk], trend=trend_o[tk])  # first use of the callables
+        g0, c0 = _est(pos2, f_2 - ev2(trend_o[tk]) - ev2(mean_o[mk]), edges)
+        g, c = _est(pos2, f_2.copy(), edges, mean=mean_o[mk], trend=trend_o[tk])
+        r.true("second call with the same callable mean / trend on other points of the same number == estimate on the manually preprocessed field", np.array_equal(c, c0) and np.allclose(g, g0, rtol=1e-10, atol=1e-12), info={"g": g.tolist(), "g0": g0.tolist()}, mean=mk, trend=tk, dim=dim)
     # fit_normalizer returns the fitted normalizer and uses it
     nrm = gs.normalizer.BoxCox()
     out = gs.vario_estimate(pos, f.copy(), edges, normalizer=nrm, fit_normalizer=True)
